@@ -129,6 +129,8 @@ from redun.utils import (
     format_timestamp,
     merge_dicts,
     pickle_dump,
+    pickle_dumps,
+    pickle_loads,
     trim_string,
 )
 from redun.value import NoneType, function_type, get_type_registry
@@ -2667,8 +2669,13 @@ class RedunClient:
                 # Write error and traceback.
                 error_traceback = Traceback.from_error(error)
                 try:
+                    # Make sure the error can also be read back: some exceptions pickle but do
+                    # not unpickle (e.g. an __init__ with required arguments that are not in
+                    # `args`), which the caller could only report as a scratch parse error.
+                    error_data = pickle_dumps((error, error_traceback))
+                    pickle_loads(error_data)
                     with BaseFile(args.error).open("wb") as out:
-                        pickle_dump((error, error_traceback), out)
+                        out.write(error_data)
                 except Exception:
                     # Some errors cannot be serialized so record them as generic Exceptions.
                     error2 = Exception(repr(error))
